@@ -297,7 +297,7 @@ func main() {
 	mpLimits := [][2]int{{0, 0}, {3, 0}}
 	mpKeeps := []int{0, 3, 5}
 	if r.Thorough() {
-		mpCuts = []int{0, 100, 1100, 2100, 4100, 4200, 4300}
+		mpCuts = []int{0, 100, 2100, 4100, 4200, 4300} // segments of up to 3 pages (6 cut points keep the thorough tier inside its time budget with 6 KeepFrom behaviours)
 		mpIsns = append(mpIsns, 1<<31-1200)
 		mpLimits = append(mpLimits, [2]int{2, 0}, [2]int{0, 4})
 		mpKeeps = []int{0, 1, 2, 3, 4, 5}
